@@ -57,6 +57,7 @@ struct ModelSecp {
 	kernels: HashMap<String, TxKernel>,
 	commits: HashMap<Vec<u8>, (i64, i64)>,
 	kernel_ids: HashMap<Hash, i64>,
+	offsets: HashMap<Vec<u8>, i64>,
 	pub proofs_made: usize,
 	pub sigs_made: usize,
 }
@@ -103,6 +104,7 @@ impl ModelSecp {
 			kernels: HashMap::new(),
 			commits: HashMap::new(),
 			kernel_ids: HashMap::new(),
+			offsets: HashMap::new(),
 			proofs_made: 0,
 			sigs_made: 0,
 		}
@@ -251,13 +253,16 @@ impl ModelSecp {
 		}
 	}
 
-	fn proj_offset(&self, off: &BlindingFactor) -> Value {
-		for k in -64i64..=64 {
-			if blind(k) == *off {
-				return json!(k);
+	fn proj_offset(&mut self, off: &BlindingFactor) -> Value {
+		if self.offsets.is_empty() {
+			for k in -40000i64..=40000 {
+				self.offsets.insert(blind(k).as_ref().to_vec(), k);
 			}
 		}
-		json!("?")
+		match self.offsets.get(&off.as_ref().to_vec()) {
+			Some(k) => json!(k),
+			None => json!("?"),
+		}
 	}
 
 	fn proj_body(&self, body: &TransactionBody) -> Value {
@@ -293,7 +298,7 @@ impl ModelSecp {
 		json!({"ins": i, "outs": o, "kerns": k})
 	}
 
-	fn proj_tx(&self, tx: &Transaction) -> Value {
+	fn proj_tx(&mut self, tx: &Transaction) -> Value {
 		let mut p = self.proj_body(&tx.body);
 		p["off"] = self.proj_offset(&tx.offset);
 		p
